@@ -6,6 +6,7 @@ import (
 	"encoding/json"
 	"fmt"
 	"os"
+	"runtime/debug"
 	"sort"
 	"strings"
 	"time"
@@ -39,7 +40,7 @@ type event struct {
 }
 
 var wordsA = []string{"alpha", "beta", "gamma"}
-var wordsB = []string{"alpha", "delta"}
+var wordsB = []string{"alpha", "delta", "delta"}
 
 func storeEvents() (a1, a2, b []event) {
 	mk := func(id int, seg string, words []string) event {
@@ -147,6 +148,29 @@ type workerOut struct {
 
 var qid uint64 = 10
 
+// the first siglens frame below a recovered panic (the server has no recover in its handlers:
+// a panic in the request goroutine ends the process)
+func panicSite() string {
+	st := string(debug.Stack())
+	seenPanic := false
+	for _, ln := range strings.Split(st, "\n") {
+		if strings.HasPrefix(ln, "panic(") {
+			seenPanic = true
+			continue
+		}
+		if seenPanic && strings.HasPrefix(ln, "github.com/siglens/siglens/") {
+			if k := strings.LastIndex(ln, "("); k > 0 {
+				ln = ln[:k]
+			}
+			return " at " + strings.TrimPrefix(ln, "github.com/siglens/siglens/")
+		}
+	}
+	return ""
+}
+
+// per-query limit inside the worker (raised when a mutation is re-run alone)
+var queryTimeout = 25 * time.Second
+
 func canon(v interface{}) string {
 	b, _ := json.Marshal(v) // map keys are sorted by encoding/json
 	return string(b)
@@ -164,7 +188,7 @@ func runLogQuery(name, text string) qres {
 		o := qres{Name: name}
 		defer func() {
 			if r := recover(); r != nil {
-				o.Err = fmt.Sprintf("panic: %v", r)
+				o.Err = fmt.Sprintf("panic: %v%s", r, panicSite())
 				ch <- o
 			}
 		}()
@@ -213,7 +237,7 @@ func runLogQuery(name, text string) qres {
 	select {
 	case r := <-ch:
 		return r
-	case <-time.After(25 * time.Second):
+	case <-time.After(queryTimeout):
 		out.Err = "timeout"
 		return out
 	}
@@ -224,7 +248,7 @@ func runMetricsQuery(name, expr string) qres {
 	func() {
 		defer func() {
 			if r := recover(); r != nil {
-				o.Err = fmt.Sprintf("panic: %v", r)
+				o.Err = fmt.Sprintf("panic: %v%s", r, panicSite())
 			}
 		}()
 		lo, hi := uint32(tsBase/1000-10), uint32(tsBase/1000+300)
@@ -293,8 +317,15 @@ func workerQuery(dir, outPath string, withMetrics bool) {
 		os.Exit(0)
 	}
 	for _, q := range logQueries {
-		out.Q = append(out.Q, runLogQuery(q[0], q[1]))
+		res := runLogQuery(q[0], q[1])
+		out.Q = append(out.Q, res)
 		flush() // a later crash keeps the earlier answers
+		if res.Err == "timeout" {
+			// the stuck query keeps spinning in this process: stop here, the driver re-runs the mutation alone
+			out.Done = true
+			flush()
+			os.Exit(0)
+		}
 	}
 	if withMetrics {
 		out.Q = append(out.Q, runMetricsQuery("metrics", "cpu"))
